@@ -284,6 +284,8 @@ pub struct Report {
     capped: Mutex<Vec<String>>,
     required_families: Mutex<Vec<(String, usize)>>,
     known: Vec<KnownFinding>,
+    cap_s: f64,
+    cap_reported: std::sync::atomic::AtomicBool,
 }
 
 impl Report {
@@ -309,6 +311,14 @@ impl Report {
             capped: Mutex::new(vec![]),
             required_families: Mutex::new(vec![]),
             known: load_known_findings(id),
+            cap_s: std::env::var("VERIF_CAP_S")
+                .ok()
+                .and_then(|s| s.parse().ok())
+                .unwrap_or(match args.tier {
+                    Tier::Quick => 55.0,
+                    Tier::Thorough => 870.0,
+                }),
+            cap_reported: std::sync::atomic::AtomicBool::new(false),
         }
     }
 
@@ -394,6 +404,19 @@ impl Report {
 
     pub fn violation_count(&self) -> u64 {
         self.violations.lock().unwrap().values().map(|v| v.count).sum()
+    }
+
+    /// Wall budget of the tier (quick 55 s, thorough 870 s, `$VERIF_CAP_S` overrides). Explorers
+    /// whose space can blow up poll this and stop expanding; the first `true` records the cap
+    /// in the evidence (`caps_hit`, `exhaustive: false`).
+    pub fn over_budget(&self, what: &str) -> bool {
+        if self.start.elapsed().as_secs_f64() <= self.cap_s {
+            return false;
+        }
+        if !self.cap_reported.swap(true, Relaxed) {
+            self.capped(&format!("wall cap of {} s hit in {what}; the space below the cap is reported as explored, the rest was skipped", self.cap_s));
+        }
+        true
     }
 
     pub fn elapsed_s(&self) -> f64 {
